@@ -1,8 +1,10 @@
 #!/bin/bash
 # confirm_seed.sh <PROP> <variant> [full]
-# Confirms a seeded change in its scratch worktree /tmp/wt-<PROP>: patch applies and builds, the
-# demonstration fails with the change and passes without it, the repository's own tests of x/... pass
-# with it (and, with "full", the integration suite too). Writes /tmp/seeded/<PROP>/<variant>/confirm.log.
+# Confirms a seeded change in the scratch worktree /tmp/wt-<PROP> (a checkout of /repo's HEAD):
+#  1. the demonstration passes WITHOUT the change, 2. the patch applies and the tree builds,
+#  3. the demonstration FAILS with the change, 4. the repository's own tests of ./x/... ./app/... pass
+#  with it and, with "full", the integration suite too.
+# Writes /tmp/seeded/<PROP>/<variant>/confirm.log (last line: CONFIRMED or NOT-CONFIRMED <why>).
 set -u
 P=$1; V=$2; FULL=${3:-}
 WT=/tmp/wt-$P; D=/tmp/seeded/$P/$V
@@ -10,18 +12,24 @@ export GOFLAGS=-mod=mod GOPROXY=off
 LOG=$D/confirm.log; : > $LOG
 cd $WT || exit 2
 git checkout -q -- . ; git clean -fdq -e tests/e2e/testdata
-pkg=$(jq -r .demo_pkg_dir $D/meta.json); pkg=${pkg#/tmp/wt-$P/}; pkg=${pkg#./}
-run=$(grep -o 'func Test[A-Za-z0-9_]*' $D/demo_test.go | head -1 | sed 's/func //')
-cp $D/demo_test.go $WT/$pkg/zz_demo_test.go
-echo "demo pkg=$pkg run=$run" >> $LOG
-go test -vet=off -count=1 -run "^${run}\$" ./$pkg/ > $D/demo_without.log 2>&1; echo "demo WITHOUT patch: exit $?" >> $LOG
-git apply $D/patch.diff || { echo "PATCH DOES NOT APPLY" >> $LOG; exit 1; }
-go build ./... >> $LOG 2>&1; echo "build with patch: exit $?" >> $LOG
-go test -vet=off -count=1 -run "^${run}\$" ./$pkg/ > $D/demo_with.log 2>&1; echo "demo WITH patch: exit $?" >> $LOG
-rm -f $WT/$pkg/zz_demo_test.go
-go test -vet=off -count=1 ./x/... ./app/... 2>&1 | grep -E "^(FAIL|ok|---)" | grep -v "^ok" >> $LOG; echo "unit tests with patch done (lines above = failures)" >> $LOG
+pkg=$(jq -r .demo_pkg_dir $D/meta.json); pkg=${pkg#/tmp/wt-$P/}; pkg=${pkg#./}; pkg=${pkg%/}
+plain=$(grep -oE '^func Test[A-Za-z0-9_]+\(' $D/demo_test.go | sed -E 's/^func (Test[A-Za-z0-9_]+)\(/\1/' | paste -sd'|')
+suite=$(grep -oE '^func \([a-zA-Z_]+ \*?[A-Za-z]+\) Test[A-Za-z0-9_]+\(' $D/demo_test.go | sed -E 's/.*\) (Test[A-Za-z0-9_]+)\(/\1/' | paste -sd'|')
+if [ -n "$plain" ]; then cmd="go test -vet=off -count=1 -run '^($plain)\$' ./$pkg/"; else cmd="go test -vet=off -count=1 ./$pkg/ -run 'TestCCVTestSuite' -testify.m '^($suite)\$'"; fi
+cp $D/demo_test.go $WT/$pkg/zz_verif_demo_test.go
+echo "demo pkg=$pkg" >> $LOG; echo "demo cmd=$cmd" >> $LOG
+( eval "$cmd" ) > $D/demo_without.log 2>&1; r0=$?; echo "demo WITHOUT patch: exit $r0" >> $LOG
+git apply $D/patch.diff || { echo "NOT-CONFIRMED patch does not apply" >> $LOG; rm -f $WT/$pkg/zz_verif_demo_test.go; exit 1; }
+go build ./... >> $LOG 2>&1; rb=$?; echo "build with patch: exit $rb" >> $LOG
+( eval "$cmd" ) > $D/demo_with.log 2>&1; r1=$?; echo "demo WITH patch: exit $r1" >> $LOG
+rm -f $WT/$pkg/zz_verif_demo_test.go
+go test -vet=off -count=1 ./x/... ./app/... 2>&1 | grep -E "^(FAIL|ok|--- FAIL|panic:)" > $D/unit_with.log; ru=$(grep -c -E "^(FAIL|--- FAIL|panic:)" $D/unit_with.log)
+echo "unit tests with patch: $(grep -c '^ok' $D/unit_with.log) packages ok, $ru failures" >> $LOG
+ri=0
 if [ "$FULL" = full ]; then
-  go test -vet=off -count=1 -timeout 25m ./tests/integration/... 2>&1 | grep -E "^(FAIL|ok|--- FAIL)" >> $LOG
+  go test -vet=off -count=1 -timeout 25m ./tests/integration/... 2>&1 | grep -E "^(FAIL|ok|--- FAIL|panic:)" > $D/integration_with.log
+  ri=$(grep -c -E "^(FAIL|--- FAIL|panic:)" $D/integration_with.log); echo "integration suite with patch: $(cat $D/integration_with.log | tr '\n' ' ')" >> $LOG
 fi
 git checkout -q -- . ; git clean -fdq -e tests/e2e/testdata
-cat $LOG
+if [ $r0 -eq 0 ] && [ $rb -eq 0 ] && [ $r1 -ne 0 ] && [ $ru -eq 0 ] && [ $ri -eq 0 ]; then echo CONFIRMED >> $LOG; else echo "NOT-CONFIRMED without=$r0 build=$rb with=$r1 unitfail=$ru integfail=$ri" >> $LOG; fi
+tail -1 $LOG
